@@ -2,6 +2,7 @@ CONSTANTS
   FW = {1, 2, 3, 4}
   Rec = {1, 2, 3}
   Thread = {1, 2}
+  Orig = {1, 2}
   Deviations = {}
 SPECIFICATION Spec
 VIEW View
